@@ -369,11 +369,13 @@ class PteraTransformer(NodeTransformer):
         self.external = evc.used - evc.assigned - evc.free
         # Python never evaluates the annotation of a local variable: a name
         # that only occurs there and does not exist is not read at all
-        self.external -= {
+        unread = {
             name
             for name in self.external - evc.read_outside_annotations
             if name not in glb and not hasattr(builtins, name)
         }
+        self.external -= unread
+        self.used = self.used - unread
         self.provenance = evc.provenance
         for ext in self.external:
             self.provenance[ext] = "external"
